@@ -152,6 +152,28 @@ Theorem C20_select_output : forall (c : cfg) (k : outkind) (snap : bool) (ups : 
 Proof. exact session_not_chardev. Qed.
 Print Assumptions C20_select_output.
 
+(* Clause 2, start-up configuration (linetrim.go init).  A process whose standard output is
+   not a terminal starts with AutoTrim off (and the fall-back width); a terminal starts with
+   AutoTrim on at the window width the tty driver reports; the environment (COLUMNS, LINES) has no
+   influence.  Hence a standard output that is not a character device — pipe, socket, regular
+   file — receives, for every history, window size, environment and --snapshot setting, the
+   final lines top to bottom UNTRIMMED: each line is exactly the text last written to it. *)
+Theorem C20_startup_cfg : forall (k : outkind) (win : Z) (e e' : env),
+  default_cfg k win e = default_cfg k win e' /\
+  (is_terminal k = false -> default_cfg k win e = mkcfg false DefaultCols) /\
+  default_cfg OTerminal win e = mkcfg true win.
+Proof.
+  intros k win e e'. split; [apply default_cfg_env|]. split; [apply default_cfg_not_terminal | apply default_cfg_terminal].
+Qed.
+Print Assumptions C20_startup_cfg.
+
+Theorem C20_select_output_untrimmed : forall (k : outkind) (win : Z) (e : env) (snap : bool) (ups : list (nat * text)),
+  is_char_device k = false ->
+  session_output (default_cfg k win e) (select_writer k snap) ups =
+  Ok (flat_map (fun l => last_write l ups ++ [10%N]) (seq 0 (line_count 0 ups))).
+Proof. exact session_untrimmed. Qed.
+Print Assumptions C20_select_output_untrimmed.
+
 (* Scope note, stated as a theorem: "anything but a terminal gets the buffered writer" is false of
    the code for exactly one kind of output — a character device that is not a terminal (e.g.
    /dev/null, where the bytes are discarded) keeps the live writer and colour.  The property's
